@@ -642,3 +642,25 @@ package security
 //@   ensures expiry_must_be_a_number: [C11] err == nil && claims != nil && has(claims, "exp") ==> typeis(claims["exp"], "float64") || typeis(claims["exp"], "int64") || typeis(claims["exp"], "int")
 //@   ensures age_enforced_json_number: [C11] err == nil && claims != nil && has(claims, "iat") && typeis(claims["iat"], "float64") && config != nil && config.TokenMaxAge > 0 ==> now - trunc(unbox(claims["iat"], "float64")) <= config.TokenMaxAge
 //@   ensures issue_time_must_be_a_number: [C11] err == nil && claims != nil && has(claims, "iat") ==> typeis(claims["iat"], "float64") || typeis(claims["iat"], "int64") || typeis(claims["iat"], "int")
+
+// standalone token verification (C11): accepted only after the signature over header.payload matched under the key
+// named by the header's kid, and the time claims validated; the subject comes from the verified payload
+//@ func (*Authenticator).computeTokenSignature (a, signingKey, tokenData) (result)
+//@   trusted
+//@   pure
+//@   ensures fresh(result)
+//@ func (*Authenticator).loadSigningKey (a, keyID, config) (result, err)
+//@   trusted
+//@   pure
+//@ func decodeJWTSegment (seg) (result, err)
+//@   trusted
+//@   pure
+//@ func VerifyIDToken (tokenStr, cfg) (result, err)
+//@   props C11
+//@   assert before call crypto/hmac.Equal #1 signature_over_header_and_payload: [C11] ref(arg0) == ref(expected) && len(arg0) == len(expected) && ref(arg1) == ref(actual) && len(arg1) == len(actual)
+//@   assert before call Authenticator).computeTokenSignature #1 key_named_by_the_header: [C11] ref(arg1) == ref(signingKey) && len(arg1) == len(signingKey)
+//@   assert before call Authenticator).loadSigningKey #1 key_id_from_header: [C11] arg1 == keyID
+//@   assert before call Authenticator).validateTokenTiming #1 only_after_the_signature_verified: [C11] sameBytes(expected, actual)
+//@   assert before call Authenticator).validateTokenTiming #1 times_of_the_verified_payload: [C11] arg1 == claims && arg2 == cfg
+//@   ensures accepted_means_subject_present: [C11] err == nil ==> result != nil && result.Subject != ""
+//@   ensures rejected_has_no_claims: [C11] err != nil ==> result == nil
